@@ -1223,3 +1223,38 @@ package server
 //@   ensures [exists-iff-nonempty] ksNonEmpty(s)
 //@   at-return [reply] result2 == nil && msg.OutputType == RESP ==> result0 == respInt(len(result1.children))
 //@   ensures [json-reply] result2 == nil && msg.OutputType == JSON ==> jsonDoc(result0)
+
+// ---- candidate hooks of a write (C05): no fence that could produce a message is left out ---------------------
+// hkBox(h) touches a rectangle when the box the hook was indexed with (stMinX..stMaxY, a function of the hook) meets it.
+// Every hook of the written key that (a) is in the outside table, or (b) is in the spatial index with a box meeting the
+// old or the new object's rectangle, or (c) is in the cross index with a box meeting the union of both rectangles, is
+// among the candidates; every candidate belongs to the written key.
+//@ ghost macro hkMeets(h, x1, y1, x2, y2) = stMinX(h) <= x2 && x1 <= stMaxX(h) && stMinY(h) <= y2 && y1 <= stMaxY(h)
+//@ ghost scratch outSeq []ref
+//@ ghost scratch oldSeq []ref
+//@ ghost macro inCands(r, h) = exists(j, 0, len(r), r[j] == h)
+//@ func Server.getQueueCandidates
+//@   frame-by-effects
+//@   uses rt.search.content, btree.asc.content, btree.ascfrom.nil
+//@   requires s != nil && d != nil && registriesNonNil(s)
+//@   modifies steps, perCall
+//@   loop 1 invariant [out.covered] forall(i, 0, idx1, astype(seq1[i], "server.Hook").Key == d.key ==> indom(candidates, seq1[i]))
+//@   loop 1 invariant [only-key] allint(h, indom(candidates, h) ==> astype(h, "server.Hook").Key == d.key)
+//@   set-at-call btree.BTree.Ascend#1 outSeq = treeAsc(s.hooksOut, *s.hooksOut)
+//@   loop 2 invariant [only-key] allint(h, indom(candidates, h) ==> astype(h, "server.Hook").Key == d.key)
+//@   loop 2 invariant [kept] forall(i, 0, len(outSeq), astype(outSeq[i], "server.Hook").Key == d.key ==> indom(candidates, outSeq[i]))
+//@   loop 2 invariant [cross.covered] forall(i, 0, idx2, astype(seq2[i], "server.Hook").Key == d.key ==> indom(candidates, seq2[i]))
+//@   loop 3 invariant [only-key] allint(h, indom(candidates, h) ==> astype(h, "server.Hook").Key == d.key)
+//@   loop 3 invariant [kept] forall(i, 0, len(outSeq), astype(outSeq[i], "server.Hook").Key == d.key ==> indom(candidates, outSeq[i]))
+//@   loop 3 invariant [old.covered] forall(i, 0, idx3, astype(seq3[i], "server.Hook").Key == d.key ==> indom(candidates, seq3[i]))
+//@   loop 4 invariant [only-key] allint(h, indom(candidates, h) ==> astype(h, "server.Hook").Key == d.key)
+//@   loop 4 invariant [kept] forall(i, 0, len(outSeq), astype(outSeq[i], "server.Hook").Key == d.key ==> indom(candidates, outSeq[i]))
+//@   loop 4 invariant [new.covered] forall(i, 0, idx4, astype(seq4[i], "server.Hook").Key == d.key ==> indom(candidates, seq4[i]))
+//@   loop 5 invariant [copied] forall(j, 0, idx5, inCands(ret, mkeys5[j]))
+//@   loop 5 invariant [only-key] forall(j, 0, len(ret), astype(ret[j], "server.Hook").Key == d.key)
+//@   at-return [candidates.only-key] forall(j, 0, len(result), astype(result[j], "server.Hook").Key == d.key)
+//@   at-return [candidates.outside] forall(i, 0, len(outSeq), astype(outSeq[i], "server.Hook").Key == d.key ==> inCands(result, outSeq[i]))
+//@   set-at-call rtree.RTree.Search#2 oldSeq = rtSearch(*s.hookTree, gMinX(objGeo(d.old)), gMinY(objGeo(d.old)), gMaxX(objGeo(d.old)), gMaxY(objGeo(d.old)))
+//@   loop 4 invariant [kept.old] forall(i, 0, len(oldSeq), d.old != nil && astype(oldSeq[i], "server.Hook").Key == d.key ==> indom(candidates, oldSeq[i]))
+//@   at-return [candidates.old-rect] d.old != nil ==> allint(h, (*s.hookTree)[h] > 0 && astype(h, "server.Hook").Key == d.key && hkMeets(h, gMinX(objGeo(d.old)), gMinY(objGeo(d.old)), gMaxX(objGeo(d.old)), gMaxY(objGeo(d.old))) ==> inCands(result, h))
+//@   at-return [candidates.new-rect] d.obj != nil ==> allint(h, (*s.hookTree)[h] > 0 && astype(h, "server.Hook").Key == d.key && hkMeets(h, gMinX(objGeo(d.obj)), gMinY(objGeo(d.obj)), gMaxX(objGeo(d.obj)), gMaxY(objGeo(d.obj))) ==> inCands(result, h))
